@@ -392,7 +392,21 @@ func msetGenUnknown(c *Ctx) []byte {
 
 // ---------------------------------------------------------------- observers
 
+// msetSafe runs f; a panic is a property failure ("never panics" is part of every C47 predicate)
+func msetSafe(c *Ctx, what string, ins []string, f func()) {
+	defer func() {
+		if r := recover(); r != nil {
+			c.PropFail("C47", what+" panics", ins...)
+		}
+	}()
+	f()
+}
+
 func msetOpItem(c *Ctx, id uint64, payload []byte) {
+	msetSafe(c, "Item", []string{HexN(id), HexB(payload)}, func() { msetOpItem0(c, id, payload) })
+}
+
+func msetOpItem0(c *Ctx, id uint64, payload []byte) {
 	num := protowire.Number(id)
 	b := messageset.AppendFieldStart(nil, num)
 	b = protowire.AppendTag(b, messageset.FieldMessage, protowire.BytesType)
@@ -441,6 +455,10 @@ func msetOpCItem(c *Ctx, b []byte) {
 }
 
 func msetOpEvents(c *Ctx, b []byte) {
+	msetSafe(c, "Events", []string{HexB(b)}, func() { msetOpEvents0(c, b) })
+}
+
+func msetOpEvents0(c *Ctx, b []byte) {
 	for _, wl := range []bool{false, true} {
 		var evs []string
 		err := messageset.Unmarshal(b, wl, func(id protowire.Number, v []byte) error {
@@ -460,6 +478,10 @@ func msetOpEvents(c *Ctx, b []byte) {
 }
 
 func msetOpUnknown(c *Ctx, u []byte) {
+	msetSafe(c, "Unknown", []string{HexB(u)}, func() { msetOpUnknown0(c, u) })
+}
+
+func msetOpUnknown0(c *Ctx, u []byte) {
 	size := messageset.SizeUnknown(u)
 	c.Case("mset", "sizeunk", []string{HexB(u)}, []string{HexN(uint64(size))})
 	out, err := messageset.AppendUnknown(nil, u)
@@ -542,6 +564,10 @@ func msetTargets(v *msetVariant) []msetTarget {
 
 // decode b into every target of one variant with one registry; model compare + property predicates
 func msetOpDec(c *Ctx, v *msetVariant, regName string, b []byte) {
+	msetSafe(c, "Dec", []string{regName, HexB(b)}, func() { msetOpDec0(c, v, regName, b) })
+}
+
+func msetOpDec0(c *Ctx, v *msetVariant, regName string, b []byte) {
 	var reg *protoregistry.Types
 	var verb, strct []int32
 	switch regName {
@@ -636,6 +662,10 @@ func msetOpDec(c *Ctx, v *msetVariant, regName string, b []byte) {
 
 // Unmarshal(b1) then merge b2  ==  Unmarshal(b1 ++ b2)
 func msetOpDec2(c *Ctx, v *msetVariant, b1, b2 []byte) {
+	msetSafe(c, "Dec2", []string{HexB(b1), HexB(b2)}, func() { msetOpDec20(c, v, b1, b2) })
+}
+
+func msetOpDec20(c *Ctx, v *msetVariant, b1, b2 []byte) {
 	uo := proto.UnmarshalOptions{Resolver: v.all, AllowPartial: true}
 	um := proto.UnmarshalOptions{Resolver: v.all, AllowPartial: true, Merge: true}
 	for _, t := range msetTargets(v) {
@@ -674,6 +704,10 @@ type msetExt struct {
 
 // build a message with the given content on every target, marshal; model compare + predicates
 func msetOpEnc(c *Ctx, v *msetVariant, exts []msetExt, unk []byte) {
+	msetSafe(c, "Enc", []string{HexB(unk)}, func() { msetOpEnc0(c, v, exts, unk) })
+}
+
+func msetOpEnc0(c *Ctx, v *msetVariant, exts []msetExt, unk []byte) {
 	sort.Slice(exts, func(i, j int) bool { return exts[i].id < exts[j].id })
 	var xs []string
 	for _, e := range exts {
@@ -765,6 +799,10 @@ func msetOpEnc(c *Ctx, v *msetVariant, exts []msetExt, unk []byte) {
 
 // a MessageSet nested in a container message (length-delimited field 1)
 func msetOpContainer(c *Ctx, v *msetVariant, b []byte) {
+	msetSafe(c, "Container", []string{HexB(b)}, func() { msetOpContainer0(c, v, b) })
+}
+
+func msetOpContainer0(c *Ctx, v *msetVariant, b []byte) {
 	wrapped := protowire.AppendTag(nil, 1, protowire.BytesType)
 	wrapped = protowire.AppendBytes(wrapped, b)
 	uo := proto.UnmarshalOptions{Resolver: v.all, AllowPartial: true}
